@@ -99,6 +99,10 @@ CURATED = [
     [L([O('lz', [P('x', 'Any'), P('y', 'Lazy')])]), L([O('eg', [P('x', 'Any'), P('y', 'Int')])])],
     [L([O('lz', [P('x', 'Lazy')]), O('two', [P('x', 'A'), P('y', 'A')])])],
     [L([O('lzd', [P('x', 'A'), P('y', 'Lazy', True)]), O('eg', [P('x', 'B'), P('y', 'Int', True)])])],
+    # an exclusive layer with several overloads hides the farther layers whichever of its overloads the registration marked
+    [L([O('n1', [P('x', 'B')]), O('n2', [P('x', 'Int')])], excl=True), L([O('far', [P('x', 'Any')])])],
+    [L([O('n1', [P('x', 'D')]), O('n2', [P('x', 'Int')]), O('n3', [P('x', 'A'), P('y', 'A')])], excl=True), L([O('far', [P('x', 'Any')]), O('far2', [P('x', 'Any'), P('y', 'Any', True)])])],
+    [L([O('top', [P('x', 'Int')])]), L([O('n1', [P('x', 'B')], me=True), O('n2', [P('x', 'C')], me=True)], excl=True), L([O('far', [P('x', 'Any')], me=True)])],
 ]
 
 
@@ -142,6 +146,7 @@ Slots == Vals \\cup {"skip"}
 ArgSeqs == UNION {[1..k -> Slots] : k \\in 0..MaxArgs}
 Recvs == {"none"} \\cup (Vals \\ {"Null"})
 Kws == {<<>>} \\cup {<<<<n, v>>>> : n \\in {"x", "y"}, v \\in Vals} %(kw2)s
+        \\cup {<<<<"kwo", v>>>> : v \\in {"Int", "B", "Null"}} \\cup {<<<<"y", v>>, <<"kwo", "Int">>>> : v \\in Vals}
 Calls == {c \\in [recv : Recvs, args : ArgSeqs, kw : Kws] :
             /\\ (c.args # <<>> => c.args[Len(c.args)] # "skip")          \\* a trailing empty slot is a grammar error
             /\\ (c.kw # <<>> => \\A i \\in 1..Len(c.args) : c.args[i] # "skip")}
@@ -251,7 +256,7 @@ def build_fd(o, ran):
     if seen_default or o.get('kwbad'):
         if o['star'] == 'none':
             sig.append('*')
-        sig.append('kwo=10' if not o.get('kwbad') else 'kwo=None')
+        sig.append('kwo_=10' if not o.get('kwbad') else 'kwo_=None')
     key = ', '.join(sig)
     if key not in _PAYLOADS:
         env = {'_TAG_OF': _TAG_OF, '_RAN': []}
@@ -265,6 +270,10 @@ def build_fd(o, ran):
                                        parameter_type_func=lambda n: _ptype(o, n, pnames, lat, yaqltypes))
     if o.get('nokw'):
         fd.no_kwargs = True
+    if 'kwo_' in fd.parameters:
+        # the keyword-only parameter is published under a name of its own (as a naming convention or
+        # @specs.parameter(alias=...) does): callers write `kwo`, the Python parameter is kwo_
+        fd.parameters['kwo_'].alias = 'kwo'
     _TAG_OF[id(fd)] = (o['tag'], ran)
     if KEEP_FDS[0]:
         _KEEP.append(fd)
@@ -278,7 +287,7 @@ KEEP_FDS = [True]      # (the rebuilt-families part lets definitions die, so tha
 def _ptype(o, n, pnames, lat, yaqltypes):
     if n == 'fd__':
         return yaqltypes.FunctionDefinition()
-    if n == 'kwo':
+    if n == 'kwo_':
         # (kwbad: the declared type refuses the parameter's own default)
         return yaqltypes.PythonType(int, nullable=False)
     if n == 'rest':
@@ -342,6 +351,24 @@ def build_chain(family, ran, perm_seed=None, root=None):
         layer_fds.append(fds)
         parent = c
     return parent, list(reversed(ctxs)), list(reversed(layer_fds))
+
+
+def build_multi_chain(family, ran, combo, root):
+    """the family with every layer realised as a MultiContext: one member context per overload, members listed in the order
+    combo[layer]; the first member carries the link to the farther layers"""
+    from yaql.language import contexts
+    parent = root
+    fam = list(family)
+    for li in range(len(fam) - 1, -1, -1):          # farthest first
+        layer = fam[li]
+        ovs = sorted(layer['ovs'], key=lambda o: o['tag'])
+        members = []
+        for pos, j in enumerate(combo[li]):
+            m = contexts.Context(parent if pos == 0 else None)
+            m.register_function(build_fd(ovs[j], ran), exclusive=bool(layer['excl']) and j == 0)
+            members.append(m)
+        parent = contexts.MultiContext(members) if members else contexts.Context(parent)
+    return parent
 
 
 def render_call(call):
@@ -541,6 +568,7 @@ def run(rep, tier, seed, keep=False, c06=False):
         tlc.ok(r3)
         rep.tlc('Resolution/G mixin families x calls (+M invariants)', r3)
         jobs.append((d3, MIXIN, 100000))
+        by_fam = {}
         for dump_, fams_, off in jobs:
           fam_cache = {}
           for st in tlaval.parse_dump(dump_):
@@ -559,6 +587,8 @@ def run(rep, tier, seed, keep=False, c06=False):
                 if off:
                     orders = list(itertools.islice(itertools.product(*per_layer), 24))      # (all 6 or 24 orders of the one layer)
             check_case(rep, runner, fam_cache, fi + off, family, call, out, label, orders)
+            if c06 and not off:
+                by_fam.setdefault(fi, []).append((call, (str(out['res']), str(out['tag']))))
             if c06 and not off and fi <= 3 and out['res'] in ('run', 'Ambiguous') and len(expect) < 40:
                 expect.append((fi, call, (str(out['res']), str(out['tag']))))
             n += 1
@@ -594,6 +624,37 @@ def run(rep, tier, seed, keep=False, c06=False):
             finally:
                 KEEP_FDS[0] = True
             rep.extra['rebuilt_family_calls'] = nreb
+            # a layer may also be a MultiContext: the union of its members' overloads. Every overload of a layer lives in a member
+            # context of its own; the members are listed in every order (capped): the outcome is the layer's, whatever the order
+            nmc = 0
+            cap_f = 30 if tier == 'quick' else 200
+            def _prio(fi_):
+                fam_ = fams[fi_ - 1]
+                return (0 if any(l['excl'] and len(l['ovs']) >= 2 for l in fam_[:-1]) else 1, fi_)
+            for fi in sorted(by_fam, key=_prio)[:cap_f]:
+                family = fams[fi - 1]
+                sizes = [len(l['ovs']) for l in family]
+                per_layer = [list(itertools.permutations(range(sz))) for sz in sizes]
+                combos = list(itertools.product(*per_layer))
+                rng_m = random.Random(seed * 131 + fi)
+                rng_m.shuffle(combos)
+                cases_f = by_fam[fi]
+                if len(cases_f) > (40 if tier == 'quick' else 150):
+                    cases_f = rng_m.sample(cases_f, 40 if tier == 'quick' else 150)
+                for combo in combos[:(6 if tier == 'quick' else 24)]:
+                    ran = []
+                    ctx = build_multi_chain(family, ran, combo, runner.root)
+                    for call, want in cases_f:
+                        res, ticks, ran_, txt, nprobe = runner.run(ctx, ran, call)
+                        got = (res[0], res[1] if res[0] == 'run' else '')
+                        nmc += 1
+                        rep.evaluations += 1
+                        if got != want:
+                            rep.violation('C06/multi-context-layer/%s-vs-%s' % (want[0], got[0]),
+                                          '%s with family %s, every layer a MultiContext with one member per overload, members listed in order %s: real %r, documented rules give %r' % (
+                                              txt, _fam_short(family), list(combo), got, want), {'family': _fam_json(family), 'call': call, 'member_order': [list(c_) for c_ in combo]})
+                            break
+            rep.extra['multi_context_layer_calls'] = nmc
         os.remove(dump)
         rep.traces += n
         rep.nontrivial = multi
